@@ -29,6 +29,10 @@ reaches the rules in the same shape:
                                       straight-line body)
   K15 map(f, X)                   ->  (f(m) for m in X)  (f a name; and
                                       list(map(f, X)) -> [f(m) for m in X])
+  K16 (a, *(b, c))                ->  (a, b, c)
+  K17 [E(v) for v in (a, b, c)]   ->  [E(a), E(b), E(c)]  (a, b, c names,
+                                      attribute chains or constants; at most
+                                      four)
   K9  t = delayed(f); t(x)        ->  delayed(f)(x)     (t bound once and
                                       used only as a callee)
 
@@ -799,6 +803,67 @@ class Canon(ast.NodeTransformer):
             return new
         return node
 
+    def _flatten_stars(self, node):
+        # K16  (a, *(b, c), d)  ->  (a, b, c, d)
+        if any(isinstance(e, ast.Starred) and isinstance(
+                e.value, (ast.Tuple, ast.List)) and not any(
+                    isinstance(x, ast.Starred) for x in e.value.elts)
+                for e in node.elts):
+            elts = []
+            for e in node.elts:
+                if isinstance(e, ast.Starred) and isinstance(
+                        e.value, (ast.Tuple, ast.List)) and not any(
+                            isinstance(x, ast.Starred)
+                            for x in e.value.elts):
+                    elts.extend(e.value.elts)
+                else:
+                    elts.append(e)
+            node.elts = elts
+            self.applied["K16"] = self.applied.get("K16", 0) + 1
+        return node
+
+    def visit_Tuple(self, node):
+        self.generic_visit(node)
+        return self._flatten_stars(node) if isinstance(
+            node.ctx, ast.Load) else node
+
+    def visit_List(self, node):
+        self.generic_visit(node)
+        return self._flatten_stars(node) if isinstance(
+            node.ctx, ast.Load) else node
+
+    def visit_ListComp(self, node):
+        self.generic_visit(node)
+        # K17  [E(v) for v in (a, b, c)]  ->  [E(a), E(b), E(c)]
+        #      (a, b, c names / attribute chains / constants; v a name that
+        #      E does not re-bind)
+        if len(node.generators) == 1:
+            g = node.generators[0]
+            if not g.ifs and not g.is_async and isinstance(
+                    g.target, ast.Name) and isinstance(
+                        g.iter, (ast.Tuple, ast.List)) and 1 <= len(
+                            g.iter.elts) <= 4 and all(
+                    _plain(e) for e in g.iter.elts) and not any(
+                    isinstance(x, (ast.Lambda, ast.ListComp, ast.SetComp,
+                                   ast.DictComp, ast.GeneratorExp,
+                                   ast.NamedExpr))
+                    for x in ast.walk(node.elt)):
+                var = g.target.id
+                elts = []
+                for e in g.iter.elts:
+                    class _S(ast.NodeTransformer):
+                        def visit_Name(self, n, e=e):
+                            if n.id == var and isinstance(n.ctx, ast.Load):
+                                return ast.copy_location(_copy(e), n)
+                            return n
+                    elts.append(_S().visit(_copy(node.elt)))
+                new = ast.copy_location(
+                    ast.List(elts=elts, ctx=ast.Load()), node)
+                ast.fix_missing_locations(new)
+                self.applied["K17"] = self.applied.get("K17", 0) + 1
+                return new
+        return node
+
     def visit_Call(self, node):
         self.generic_visit(node)
         if isinstance(node.func, ast.Name) and node.func.id == "enumerate":
@@ -838,6 +903,12 @@ class Canon(ast.NodeTransformer):
             self.applied["K15"] = self.applied.get("K15", 0) + 1
             return new
         return node
+
+
+def _plain(e):
+    if isinstance(e, (ast.Name, ast.Constant)):
+        return True
+    return isinstance(e, ast.Attribute) and _plain(e.value)
 
 
 def _stores(node):
